@@ -2,34 +2,91 @@
 C06 -- copies are faithful and independent; derived molecules never alter their sources.
 
 Monitor shape: snapshot oracle.  For every (source kind x copy route): snapshot(source) == snapshot(copy) in every
-field both have (faithful, parents/indices included); then a mutation script is applied to one side and the other side's
-snapshot must stay bit-identical -- in both directions; no array memory, atom, bond, dict or list object is shared.
+field both have (faithful; values AND classes of the values, parents/indices included); the call itself must leave every
+source as it was (fields, parent links, indices); then a mutation script is applied to one side and the other side's
+snapshot must stay bit-identical -- in both directions; no array memory, atom, bond or other mutable object reachable
+through the attributes is shared; dropping the copy leaves the parent links of the source alone.
 """
 from __future__ import annotations
 
 ID = "C06"
 LEVEL = "exploration"
-RULE = ("sources: Promolecule, Connectivity, CartesianGeometry, Structure, Molecule, ConformerEnsemble, Conformer built from "
-        "seeded random rich molecules (>=2 atoms, >=1 bond, non-zero charges, nested attribs at molecule/atom/bond level); "
-        "routes: copy constructors (same class and every accepting super/sub class), cls(atoms, copy_atoms=True), pickle, "
-        "deepcopy, concatenate / '|', join, Atom.evolve, Bond.evolve; ~25 mutations applied to either side. non-trivial = "
-        "every case (sources are forced rich); distinct by (source kind, route, source hash)")
+RULE = ("sources: Promolecule, Connectivity, CartesianGeometry, Structure, Molecule, ConformerEnsemble, Conformer, Substructure "
+        "(a Structure) built from seeded random rich molecules (>=2 atoms, >=1 bond, non-zero charges, nested attribs at "
+        "molecule/atom/bond level holding lists, dicts, arrays, sets, byte arrays, tuples of lists, objects, references to "
+        "atoms; attribute mappings of other mapping classes); "
+        "routes: copy constructors (same class, every accepting super/sub class, user subclasses, with keyword overrides "
+        "that name arrays owned by a source, molecule(s)/conformer(s) -> ensemble), cls(atoms, copy_atoms=True), pickle, "
+        "deepcopy, concatenate / '|' (one fragment, empty fragments, the same fragment twice, mixed classes), join (mixed "
+        "classes, conformers, the same structure on both sides), Atom.evolve, Bond.evolve; ~25 mutations (scalar fields, nested and deep attribute edits, arrays, structure edits, hydrogens) applied to either "
+        "side. non-trivial = every case (sources are forced rich); distinct by (source kind, route, source hash)")
 ASSUMPTIONS = [
-    "faithfulness is judged on the fields both classes have (e.g. Promolecule(molecule) has no coordinates)",
-    "concatenate/join: molecule-level name/attrib are not judged (two sources); atoms, bonds, partial charges and (for "
-    "concatenate) coordinates are compared per fragment; join geometry is C12's subject",
+    "faithfulness is judged on the fields both classes have (e.g. Promolecule(molecule) has no coordinates); "
+    "ConformerEnsemble(molecule) is judged on atoms, bonds, name, charge, mult, attrib only (it does not take the geometry)",
+    "concatenate/join: molecule-level name/attrib/charge/mult are not judged (two sources); atoms, bonds, partial charges and "
+    "(for concatenate) coordinates are compared per fragment; join geometry is C12's subject",
+    "a constructor keyword (name=, charge=, mult=, coords=, atomic_charges=, weights=) replaces the field it names, all "
+    "other fields are judged against the source; attrib= overrides are not exercised (merge semantics are not C06's)",
+    "Substructure is a source for the copy constructors and cls(atoms, copy_atoms=True) only (concatenating / pickling a "
+    "Substructure raises on the unchanged tree; it is not in the property's list of source kinds)",
 ]
 REQUIRED = {"faithful.checked": 300, "independent.copy-mutated": 300, "independent.source-mutated": 300,
             "route.pickle": 20, "route.deepcopy": 20, "route.ctor": 100, "route.concatenate": 20, "route.join": 20,
             "route.evolve": 20, "route.concatenate-self": 10, "concatenate.three-or-more-fragments": 10, "mutation.nested-attrib": 100, "sharing.walked": 300,
-            "source.atoms-lent-before-copy": 50, "route.ctor-subclass": 20}
+            "source.atoms-lent-before-copy": 50, "route.ctor-subclass": 20,
+            # gap review
+            "source.links-compared": 1000, "source.links-after-drop": 500,
+            "route.concatenate-one": 40, "route.concatenate-empty": 40, "concatenate.empty-on-the-left": 5,
+            "concatenate.result-identity-checked": 150, "concatenate.class-differs-from-fragment": 20,
+            "route.ctor-ensemble-from-molecule": 60, "route.ctor-list": 40, "ctor-ensemble.default-n-conformers": 15,
+            "route.ctor-subclass-ensemble": 15, "route.ctor-subclass-base-classes": 40,
+            "route.join-mixed": 40, "join.conformer-fragment": 10, "join.class-differs-from-first-fragment": 15,
+            "join.attachment-by-index": 20, "route.join-self": 40,
+            "mutation.deep-edit": 1000, "deep-edit.set": 300, "deep-edit.bytearray": 300, "deep-edit.list-in-tuple": 300,
+            "deep-edit.object": 300, "deep-edit.atom-reference": 300, "sharing.atom-reference-walked": 300,
+            "types.compared": 1000, "source.attrib-mapping-class": 200,
+            "route.ctor-kw": 80, "ctor-kw.array-of-a-source": 40,
+            "source.substructure": 100, "source.default-attrib": 20}
 CHUNK_TIMEOUT = 900
 TECHNIQUE = "runtime monitoring: deep snapshot equality + mutate-one-side/observe-the-other oracle, object-identity sharing walk"
 LEVEL_TEXT = ("Held on the (source x route x mutation) matrix produced from seeded random rich objects: every copy is compared "
-              "with its source field by field, then each side is mutated through ~25 edits while the other side is watched.")
-LEVEL_NOTE = "Trusted: vmon/snap.py. Bit-identical comparison for independence, exact (not tolerant) for faithfulness."
+              "with its source field by field (values and classes), every source is compared with itself before / after the "
+              "call (fields, parent links, indices), then each side is mutated through ~25 edits while the other side is watched.")
+LEVEL_NOTE = ("Trusted: vmon/snap.py plus the local class / parent-link snapshots of this module. Bit-identical comparison for "
+              "independence, exact (not tolerant) for faithfulness.")
 
-KINDS = ["Promolecule", "Connectivity", "CartesianGeometry", "Structure", "Molecule", "ConformerEnsemble", "Conformer"]
+KINDS = ["Promolecule", "Connectivity", "CartesianGeometry", "Structure", "Molecule", "ConformerEnsemble", "Conformer",
+         "Substructure"]
+
+# ------------------------------------------------------------------------------------------------
+# Defects of the UNCHANGED tree (see tools/findings/C06-ext.json).  These exact violation keys are counted
+# (monitor known-defect.suppressed) instead of reported; remove the entries once the library is repaired.
+#
+#  Promolecule copy branch: `deepcopy(pm.attrib) | self.attrib` gives a plain dict for every mapping class whose
+#  `|` with a plain dict does not keep the class (Counter, user subclasses of dict); defaultdict / OrderedDict are kept.
+#  (join with the same structure / conformers of one ensemble on both sides -- route join-self -- was repaired in the
+#  library, commit 0d9ffb9, and is judged like every other join.)
+_MAPPING_CLASS = "not-faithful:attrib-mapping-class-not-kept-by-merge-with-dict"
+KNOWN_ON_UNCHANGED_TREE = set()
+
+
+def _known_mapping_keys():
+    out = set()
+    for kind in KINDS:
+        for route, target in routes_for(kind):
+            if route in ("ctor", "ctor-subclass", "ctor-kw", "ctor-list"):
+                out.add(f"{kind}->{route}:{target}:{_MAPPING_CLASS}")
+    return out
+
+
+def viol(ctx, key, case=None, **detail):
+    import os
+
+    # VERIF_C06_REPORT_KNOWN=1 reports them too (to confirm a repair of the library)
+    if key in KNOWN_ON_UNCHANGED_TREE and not os.environ.get("VERIF_C06_REPORT_KNOWN"):
+        ctx.count("known-defect.suppressed")
+        return
+    ctx.violation(key, case=case, **detail)
 
 
 def plan(tier, seed):
@@ -40,8 +97,33 @@ def plan(tier, seed):
 
 # ------------------------------------------------------------------------------------------------
 
-def rich_molecule(rng, cls):
+class UserMapping(dict):
+    """a user-defined attribute mapping (inherits everything, `|` included, from dict)"""
+
+
+def mapping_variant(rng, d, ctx=None, plain_only=False):
+    """the attribute mapping as a plain dict or as another mapping class (same content)"""
+    import collections
+
+    r = rng.random()
+    if plain_only or r < 0.45:
+        return d
+    if ctx is not None:
+        ctx.count("source.attrib-mapping-class")
+    if r < 0.7:
+        return collections.defaultdict(list, d)
+    if r < 0.9:
+        return collections.OrderedDict(d)
+    if ctx is not None:
+        ctx.count("source.attrib-mapping-class-merging-to-dict")
+    # mapping classes whose `|` with a plain dict gives a plain dict
+    return collections.Counter(d) if r < 0.95 else UserMapping(d)
+
+
+def rich_molecule(rng, cls, ctx=None):
     from vmon import gen
+    import collections
+    import types
 
     m = gen.molecule(rng, n_atoms=rng.choice([2, 3, 5, 8, 12]), rich=True, special=0.0, cls=cls)
     if m.n_bonds == 0:
@@ -50,18 +132,34 @@ def rich_molecule(rng, cls):
     m.atoms[0].attrib["nested"] = {"l": [1, [2, 3]], "d": {"x": 1}}
     m.atoms[-1].attrib["flat"] = "v"
     # attribute values of other mapping / container types, and a reference to another atom of the same molecule
-    import collections
     m.atoms[0].attrib["counter"] = collections.Counter("aabbbc")
     m.atoms[-1].attrib["ordered"] = collections.OrderedDict([("z", 1), ("a", [2, 3])])
     m.attrib["dd"] = collections.defaultdict(list, {"k": [1]})
     m.atoms[0].attrib["tags"] = {"x", "y"}
     m.atoms[0].attrib["partner"] = m.atoms[-1]
     m.bonds[0].attrib["nested"] = {"q": [0, {"z": 1}]}
+    # mutable values that are neither dict, list nor array -- at the top level of an attribute mapping and below it
+    m.atoms[-1].attrib["shifts"] = ([1.0, 2.0], "ppm")
+    m.atoms[-1].attrib["raw"] = bytearray(b"abc")
+    m.atoms[0].attrib["obj"] = types.SimpleNamespace(v=[1, 2], s="t")
+    m.atoms[0].attrib["frozen"] = frozenset({1, 2})
+    m.bonds[0].attrib["tags"] = {"ring"}
+    m.bonds[-1].attrib["raw"] = bytearray(b"xy")
+    m.attrib["tags"] = {"m"}
+    m.attrib["obj"] = types.SimpleNamespace(w=[3])
+    m.attrib["pair"] = ({"k": [1]}, 2)
+    # the attribute mappings themselves may be of another mapping class
+    m.attrib = mapping_variant(rng, m.attrib, ctx)
+    m.atoms[-1].attrib = mapping_variant(rng, m.atoms[-1].attrib, None, plain_only=rng.random() < 0.5)
+    if type(m.atoms[-1].attrib) in (collections.Counter, UserMapping):
+        m.atoms[-1].attrib = collections.OrderedDict(m.atoms[-1].attrib)
+    if rng.random() < 0.5:
+        m.bonds[-1].attrib = collections.defaultdict(dict, m.bonds[-1].attrib)
     return m
 
 
-def make_source(rng, kind):
-    """-> (source object, keepalive)"""
+def make_source(rng, kind, ctx=None):
+    """-> (source object, keepalive = the object that owns what the source shows, or None)"""
     import numpy as np
     import molli as ml
     from molli.chem import Atom, Promolecule, Connectivity, CartesianGeometry, Structure, Molecule, ConformerEnsemble
@@ -69,30 +167,45 @@ def make_source(rng, kind):
 
     if kind in ("Structure", "Molecule"):
         cls = Structure if kind == "Structure" else Molecule
-        m = rich_molecule(rng, cls)
+        m = rich_molecule(rng, cls, ctx)
         if kind == "Molecule":
             m.atomic_charges = np.array([0.25 * (i + 1) * (-1) ** i for i in range(m.n_atoms)])
         return m, None
-    base = rich_molecule(rng, Molecule)
+    base = rich_molecule(rng, Molecule, ctx)
+    if kind == "Substructure":
+        base.atomic_charges = np.array([0.25 * (i + 1) * (-1) ** i for i in range(base.n_atoms)])
+        n = base.n_atoms
+        mode = rng.random()
+        heavy = [a for a in base.atoms if a.element.name != "H"]
+        if mode < 0.25 and len(heavy) >= 1:
+            sub = base.heavy
+        elif mode < 0.5:
+            sub = base.substructure(range(n))                      # everything, parent order
+        else:
+            idx = rng.sample(range(n), rng.randrange(1, n + 1))    # a subset in any order
+            sub = base.substructure(idx)
+        if ctx is not None:
+            ctx.count("source.substructure")
+        return sub, base
     if kind == "Promolecule":
         p = Promolecule([a for a in base.atoms], name=base.name, charge=base.charge, mult=base.mult, copy_atoms=True)
         for a, b in zip(p.atoms, base.atoms):
             a.attrib = {"own": [1, {"k": 2}], **{k: v for k, v in b.attrib.items() if k != "nested"}}
-        p.attrib = {"nested": {"a": [1, 2]}}
+        p.attrib = mapping_variant(rng, {"nested": {"a": [1, 2]}, "tags": {"p"}}, ctx)
         return p, None
     if kind == "Connectivity":
         c = Connectivity(base.atoms, name=base.name, charge=base.charge, mult=base.mult, copy_atoms=True)
         for b in base.bonds:
             c.connect(base.atoms.index(b.a1), base.atoms.index(b.a2), label=b.label, btype=b.btype, stereo=b.stereo,
-                      f_order=b.f_order, attrib={"own": {"n": [1]}})
-        c.attrib = {"nested": {"a": [1, 2]}}
-        c.atoms[0].attrib = {"own": [1, {"k": 2}]}
+                      f_order=b.f_order, attrib={"own": {"n": [1]}, "tags": {"t"}})
+        c.attrib = mapping_variant(rng, {"nested": {"a": [1, 2]}}, ctx)
+        c.atoms[0].attrib = {"own": [1, {"k": 2}], "raw": bytearray(b"c")}
         return c, None
     if kind == "CartesianGeometry":
         g = CartesianGeometry(base.atoms, name=base.name, charge=base.charge, mult=base.mult, copy_atoms=True,
                               coords=np.array(base.coords))
-        g.attrib = {"nested": {"a": [1, 2]}}
-        g.atoms[0].attrib = {"own": [1, {"k": 2}]}
+        g.attrib = mapping_variant(rng, {"nested": {"a": [1, 2]}}, ctx)
+        g.atoms[0].attrib = {"own": [1, {"k": 2}], "pair": ([1], 2)}
         return g, None
     # ensembles
     nc = rng.choice([1, 2, 4])
@@ -109,33 +222,203 @@ def make_source(rng, kind):
     return ens[rng.randrange(nc)], ens
 
 
+CHAIN = {"Promolecule": ["Promolecule"],
+         "Connectivity": ["Promolecule", "Connectivity", "ConformerEnsemble"],
+         "CartesianGeometry": ["Promolecule", "CartesianGeometry"],
+         "Structure": ["Promolecule", "Connectivity", "CartesianGeometry", "Structure", "Molecule", "ConformerEnsemble"],
+         "Molecule": ["Promolecule", "Connectivity", "CartesianGeometry", "Structure", "Molecule", "ConformerEnsemble"],
+         "ConformerEnsemble": ["Promolecule", "Connectivity", "ConformerEnsemble"],
+         "Conformer": ["Molecule", "Structure", "CartesianGeometry", "Connectivity", "Promolecule", "ConformerEnsemble"],
+         "Substructure": ["Promolecule", "Connectivity", "CartesianGeometry", "Structure", "Molecule"]}
+
+
 def routes_for(kind):
-    r = []
+    r = [("ctor", c) for c in CHAIN[kind]]
     if kind == "Conformer":
-        return [("ctor", "Molecule"), ("ctor", "Structure"), ("ctor", "CartesianGeometry"), ("ctor", "Connectivity"),
-                ("ctor", "Promolecule"), ("atoms-copy", "Molecule"), ("concatenate", "Molecule"), ("ctor-subclass", "Molecule"),
-                ("pickle", "Conformer"), ("deepcopy", "Conformer")]
-    chain = {"Promolecule": ["Promolecule"],
-             "Connectivity": ["Promolecule", "Connectivity"],
-             "CartesianGeometry": ["Promolecule", "CartesianGeometry"],
-             "Structure": ["Promolecule", "Connectivity", "CartesianGeometry", "Structure", "Molecule"],
-             "Molecule": ["Promolecule", "Connectivity", "CartesianGeometry", "Structure", "Molecule"],
-             "ConformerEnsemble": ["Promolecule", "Connectivity", "ConformerEnsemble"]}[kind]
-    r += [("ctor", c) for c in chain]
+        return r + [("atoms-copy", "Molecule"), ("concatenate", "Molecule"), ("ctor-subclass", "Molecule"),
+                    ("pickle", "Conformer"), ("deepcopy", "Conformer"),
+                    ("ctor-list", "ConformerEnsemble"), ("ctor-kw", "Molecule"),
+                    ("concatenate-one", "Molecule"), ("concatenate-empty", "Molecule"),
+                    ("join-mixed", "Molecule"), ("join-self", "Molecule")]
+    if kind == "Substructure":
+        return r + [("ctor-subclass", "Structure"), ("ctor-subclass", "Molecule"), ("atoms-copy", "Structure")]
     r += [("atoms-copy", kind), ("pickle", kind), ("deepcopy", kind)]
     if kind in ("Structure", "Molecule"):
         r += [("ctor-subclass", "Molecule"), ("ctor-subclass", "Structure")]
+    else:
+        r += [("ctor-subclass", kind)]        # a user subclass of every class is a copy target like any other
+    if kind == "Molecule":
+        r += [("ctor-list", "ConformerEnsemble")]
+    if kind in ("CartesianGeometry", "Structure", "Molecule", "ConformerEnsemble"):
+        r += [("ctor-kw", kind)]
     if kind in ("Structure", "Molecule"):
-        r += [("concatenate", kind), ("or", "Structure"), ("join", kind), ("concatenate-self", kind)]
+        r += [("concatenate", kind), ("or", "Structure"), ("join", kind), ("concatenate-self", kind),
+              ("concatenate-one", kind), ("concatenate-empty", kind), ("join-mixed", kind), ("join-self", kind)]
     r += [("evolve-atom", "Atom")]
     if kind not in ("Promolecule", "CartesianGeometry"):
         r += [("evolve-bond", "Bond")]
     return r
 
 
+# (the attrib mapping class defect was repaired in the library: nothing is silenced)
+
+
+# ------------------------------------------------------------------------------------------------
+# local snapshot extensions (vmon/snap.py compares values; the property also speaks of classes, parents and indices)
+
+def typetree(v, depth=0):
+    """class names of a value and of everything inside it (int / float / bool / enum / tuple / list ... are distinct)"""
+    import numpy as np
+
+    t = type(v).__name__
+    if depth > 8:
+        return t
+    if isinstance(v, dict):
+        d = {"__class__": t}
+        for k, x in v.items():
+            d[repr(k)] = typetree(x, depth + 1)
+        return d
+    if isinstance(v, (list, tuple)):
+        return [t] + [typetree(x, depth + 1) for x in v]
+    if isinstance(v, (set, frozenset)):
+        return [t] + sorted(repr(typetree(x, depth + 1)) for x in v)
+    if isinstance(v, np.ndarray):
+        return f"ndarray[{v.dtype.str}]"
+    return t
+
+
+ATOM_FIELDS = ("element", "isotope", "label", "atype", "stereo", "geom", "formal_charge", "formal_spin")
+BOND_FIELDS = ("label", "btype", "stereo", "f_order")
+
+
+def atom_types(a):
+    d = {f: type(getattr(a, f)).__name__ for f in ATOM_FIELDS}
+    d["attrib"] = typetree(a.attrib)
+    return d
+
+
+def bond_types(b):
+    d = {f: type(getattr(b, f)).__name__ for f in BOND_FIELDS}
+    d["attrib"] = typetree(b.attrib)
+    return d
+
+
+def xsnap(x):
+    """vmon.snap.snap plus the classes of all field values ("types" inside every atom / bond and at the top level)"""
+    from vmon.snap import snap
+
+    s = snap(x)
+    for d, a in zip(s["atoms"], x.atoms):
+        d["types"] = atom_types(a)
+    if "bonds" in s:
+        for d, b in zip(s["bonds"], x.bonds):
+            d["types"] = bond_types(b)
+    t = {}
+    for f in ("name", "charge", "mult"):
+        if f in s:
+            t[f] = type(getattr(x, f)).__name__
+    if "attrib" in s:
+        t["attrib"] = typetree(x.attrib)
+    for f in ("coords", "atomic_charges", "weights"):
+        if f in s:
+            t[f] = s[f].dtype.str
+    s["types"] = t
+    return s
+
+
+def links(x):
+    """who every atom / bond of x names as its parent (identity) and which index every atom reports"""
+    out = []
+    for i, a in enumerate(x.atoms):
+        try:
+            p = a.parent
+            out.append(("atom", i, None if p is None else id(p), a.idx))
+        except Exception as e:  # noqa
+            out.append(("atom", i, "raises", type(e).__name__))
+    try:
+        bonds = list(x.bonds) if hasattr(x, "bonds") else []
+    except AttributeError:
+        bonds = []
+    for j, b in enumerate(bonds):
+        try:
+            p = b.parent
+            out.append(("bond", j, None if p is None else id(p)))
+        except Exception as e:  # noqa
+            out.append(("bond", j, "raises", type(e).__name__))
+    return out
+
+
+def links_diff(a, b):
+    """-> mechanism name or None"""
+    if len(a) != len(b):
+        return "links.len"
+    for x, y in zip(a, b):
+        if x != y:
+            if x[0] == "bond":
+                return "bond.parent"
+            return "atom.parent" if x[2] != y[2] else "atom.idx"
+    return None
+
+
+def flat(s):
+    """byte string of a snapshot (fast equality; the structural diff decides whenever the bytes differ)"""
+    import pickle
+
+    try:
+        return pickle.dumps(s, protocol=4)
+    except Exception:  # noqa
+        return None
+
+
+class Watched:
+    """objects that have to stay as they are: snapshot (values + classes) and parent links, taken now"""
+
+    def __init__(self, objs, ctx=None):
+        self.items = [(label, o, xsnap(o), links(o)) for label, o in objs]
+        self.bytes = [flat(s) for _, _, s, _ in self.items]
+        self.ctx = ctx
+
+    def changed(self, with_links=True):
+        """-> (label, mechanism field, witness) of the first difference, or None"""
+        from vmon.snap import diff
+
+        for (label, o, s, l), fb in zip(self.items, self.bytes):
+            now = xsnap(o)
+            if fb is None or flat(now) != fb:         # equal bytes: equal snapshots; else let diff decide
+                d = diff(s, now)
+                if d:
+                    return label, field_of(d[0][0]), d[:3]
+            if with_links:
+                if self.ctx is not None:
+                    self.ctx.count("source.links-compared")
+                ld = links_diff(l, links(o))
+                if ld:
+                    return label, ld, None
+        return None
+
+    def links_changed(self):
+        for label, o, s, l in self.items:
+            ld = links_diff(l, links(o))
+            if ld:
+                return label, ld
+        return None
+
+
 # ------------------------------------------------------------------------------------------------
 
-def mutations(obj, rng):
+BASE_NAMES = ("Conformer", "Substructure", "ConformerEnsemble", "Molecule", "Structure", "CartesianGeometry", "Connectivity",
+              "Promolecule")
+
+
+def base_name(obj):
+    """name of the library class an object is an instance of (user subclasses count as their base)"""
+    for c in type(obj).__mro__:
+        if c.__name__ in BASE_NAMES and c.__module__.startswith("molli."):
+            return c.__name__
+    return type(obj).__name__
+
+
+def mutations(obj, rng, ctx=None):
     """list of (name, fn) editing `obj` in place through public API"""
     import numpy as np
     from molli.chem import Atom, AtomType, AtomStereo, AtomGeom, BondType, BondStereo, Element
@@ -145,28 +428,36 @@ def mutations(obj, rng):
     if atoms:
         a = atoms[0]
         muts += [
-            ("atom.element", lambda: setattr(a, "element", Element.Xe if a.element != Element.Xe else Element.Kr)),
-            ("atom.isotope", lambda: setattr(a, "isotope", (a.isotope or 0) + 7)),
-            ("atom.label", lambda: setattr(a, "label", "MUTATED")),
-            ("atom.atype", lambda: setattr(a, "atype", AtomType.Dummy if a.atype != AtomType.Dummy else AtomType.sp2)),
-            ("atom.stereo", lambda: setattr(a, "stereo", AtomStereo.R if a.stereo != AtomStereo.R else AtomStereo.S)),
-            ("atom.geom", lambda: setattr(a, "geom", AtomGeom.R6 if a.geom != AtomGeom.R6 else AtomGeom.R1)),
-            ("atom.formal_charge", lambda: setattr(a, "formal_charge", a.formal_charge + 5)),
-            ("atom.formal_spin", lambda: setattr(a, "formal_spin", a.formal_spin + 3)),
+            ("atom.scalar-fields", lambda: (
+                setattr(a, "element", Element.Xe if a.element != Element.Xe else Element.Kr),
+                setattr(a, "isotope", (a.isotope or 0) + 7),
+                setattr(a, "label", "MUTATED"),
+                setattr(a, "atype", AtomType.Dummy if a.atype != AtomType.Dummy else AtomType.sp2),
+                setattr(a, "stereo", AtomStereo.R if a.stereo != AtomStereo.R else AtomStereo.S),
+                setattr(a, "geom", AtomGeom.R6 if a.geom != AtomGeom.R6 else AtomGeom.R1),
+                setattr(a, "formal_charge", a.formal_charge + 5),
+                setattr(a, "formal_spin", a.formal_spin + 3))),
             ("atom.attrib[k]=v", lambda: a.attrib.__setitem__("mutkey", "mutval")),
             ("atom.nested-attrib", lambda: nested_edit(a.attrib)),
+            ("atoms.attrib-deep-edit", lambda: [deep_edit(x.attrib, ctx) for x in atoms]),
         ]
-    bonds = list(getattr(obj, "bonds", ()) or ())
+    try:
+        bonds = list(getattr(obj, "bonds", ()) or ())
+    except AttributeError:
+        bonds = []
     if bonds:
         b = bonds[0]
         muts += [
-            ("bond.label", lambda: setattr(b, "label", "MUTB")),
-            ("bond.btype", lambda: setattr(b, "btype", BondType.H_Donor if b.btype != BondType.H_Donor else BondType.Single)),
-            ("bond.stereo", lambda: setattr(b, "stereo", BondStereo.E if b.stereo != BondStereo.E else BondStereo.Z)),
-            ("bond.f_order", lambda: setattr(b, "f_order", b.f_order + 0.75)),
+            ("bond.scalar-fields", lambda: (
+                setattr(b, "label", "MUTB"),
+                setattr(b, "btype", BondType.H_Donor if b.btype != BondType.H_Donor else BondType.Single),
+                setattr(b, "stereo", BondStereo.E if b.stereo != BondStereo.E else BondStereo.Z),
+                setattr(b, "f_order", b.f_order + 0.75))),
             ("bond.attrib[k]=v", lambda: b.attrib.__setitem__("mutkey", 1)),
             ("bond.nested-attrib", lambda: nested_edit(b.attrib)),
+            ("bonds.attrib-deep-edit", lambda: [deep_edit(x.attrib, ctx) for x in bonds]),
         ]
+    cname = base_name(obj)
     if hasattr(obj, "coords") and len(atoms):
         muts.append(("coords[i]+=1", lambda: obj.coords.__setitem__((Ellipsis, 0, slice(None)) if obj.coords.ndim == 3 else 0,
                                                                     (obj.coords[..., 0, :] if obj.coords.ndim == 3 else obj.coords[0]) + 1.0)))
@@ -178,15 +469,14 @@ def mutations(obj, rng):
             else:
                 q[0] = q[0] + 3.5
         muts.append(("atomic_charges[i]=q", mutq))
-    if hasattr(obj, "weights") and type(obj).__name__ == "ConformerEnsemble" and obj.n_conformers:
+    if hasattr(obj, "weights") and cname == "ConformerEnsemble" and obj.n_conformers:
         muts.append(("weights[i]=w", lambda: obj.weights.__setitem__(0, obj.weights[0] + 2.0)))
-    cname = type(obj).__name__
     muts += [("mol.attrib[k]=v", lambda: obj.attrib.__setitem__("molmut", [1])),
-             ("mol.nested-attrib", lambda: nested_edit(obj.attrib))]
-    if cname != "Conformer":
-        muts += [("mol.name", lambda: setattr(obj, "name", "renamed")),
-                 ("mol.charge", lambda: setattr(obj, "charge", (obj.charge or 0) + 4)),
-                 ("mol.mult", lambda: setattr(obj, "mult", (obj.mult or 1) + 2))]
+             ("mol.nested-attrib", lambda: nested_edit(obj.attrib)),
+             ("mol.attrib-deep-edit", lambda: deep_edit(obj.attrib, ctx))]
+    if cname not in ("Conformer", "Substructure"):
+        muts += [("mol.scalar-fields", lambda: (setattr(obj, "name", "renamed"), setattr(obj, "charge", (obj.charge or 0) + 4),
+                                                setattr(obj, "mult", (obj.mult or 1) + 2)))]
     if cname in ("Structure", "Molecule"):
         muts += [("add_atom", lambda: obj.add_atom(Atom("Cl", label="added"), [9.0, 9.0, 9.0])),
                  ("connect", lambda: connect_new(obj)),
@@ -206,6 +496,8 @@ def mutations(obj, rng):
     elif cname == "ConformerEnsemble":
         muts += [("connect", lambda: connect_new(obj)), ("scale", lambda: obj.scale(2.0)),
                  ("translate", lambda: obj.translate([1.0, 2.0, 3.0]) if obj.n_conformers else None)]
+    if hasattr(obj, "coords") and cname != "Substructure":
+        muts.append(("coords=value", lambda: setattr(obj, "coords", 0.5)))       # last: it flattens the geometry
     return muts
 
 
@@ -228,6 +520,60 @@ def nested_edit(d):
     d["__no_nested__"] = 1
 
 
+def is_atom(v):
+    return type(v).__module__.startswith("molli.") and hasattr(v, "element") and hasattr(v, "atype") and hasattr(v, "attrib")
+
+
+def deep_edit(x, ctx=None, seen=None, depth=0, in_tuple=False):
+    """edit IN PLACE every mutable value reachable from an attribute mapping (whatever its class)"""
+    import numpy as np
+    import types
+
+    if seen is None:
+        seen = set()
+        if ctx is not None:
+            ctx.count("mutation.deep-edit")
+    if id(x) in seen or depth > 8:
+        return
+    seen.add(id(x))
+
+    def c(name):
+        if ctx is not None:
+            ctx.count("deep-edit." + name)
+
+    if isinstance(x, dict):
+        for v in list(x.values()):
+            deep_edit(v, ctx, seen, depth + 1)
+        x["deep-edit"] = 1
+    elif isinstance(x, list):
+        for v in list(x):
+            deep_edit(v, ctx, seen, depth + 1)
+        x.append("deep-edit")
+        if in_tuple:
+            c("list-in-tuple")
+    elif isinstance(x, tuple):
+        for v in x:
+            deep_edit(v, ctx, seen, depth + 1, in_tuple=True)
+    elif isinstance(x, set):
+        x.add("deep-edit")
+        c("set")
+    elif isinstance(x, bytearray):
+        x += b"!"
+        c("bytearray")
+    elif isinstance(x, np.ndarray):
+        if x.size and x.flags.writeable and x.dtype.kind in "fiu":
+            x += 1
+    elif isinstance(x, types.SimpleNamespace):
+        for v in list(vars(x).values()):
+            deep_edit(v, ctx, seen, depth + 1)
+        x.deep_edit = 1
+        c("object")
+    elif is_atom(x):
+        x.label = "deep-edit"
+        x.attrib["deep-edit-through-reference"] = 1
+        c("atom-reference")
+
+
 def connect_new(obj):
     n = obj.n_atoms
     have = {frozenset((id(b.a1), id(b.a2))) for b in obj.bonds}
@@ -245,30 +591,53 @@ def safe(fn):
         pass
 
 
-def walk_ids(x, out, depth=0):
-    """identities of every mutable container reachable through attribs"""
+def walk_ids(x, out, depth=0, ctx=None):
+    """identities of every mutable object reachable through attribs: anything that is not a number, string, bytes, None,
+    enum member or class; tuples / frozensets are looked into, referenced atoms are recorded and looked into"""
     import numpy as np
+    import types
+    from enum import Enum
 
-    if isinstance(x, (dict, list, np.ndarray, bytearray)):
-        out.add(id(x))
-    if depth > 6:
+    if x is None or isinstance(x, (bool, int, float, complex, str, bytes, Enum, np.generic, type, types.FunctionType,
+                                   types.BuiltinFunctionType, types.ModuleType, range)):
+        return
+    if isinstance(x, (tuple, frozenset)):
+        if depth <= 8:
+            for v in x:
+                walk_ids(v, out, depth + 1, ctx)
+        return
+    if id(x) in out:
+        return
+    out.add(id(x))
+    if depth > 8:
         return
     if isinstance(x, dict):
         for v in x.values():
-            walk_ids(v, out, depth + 1)
-    elif isinstance(x, (list, tuple)):
+            walk_ids(v, out, depth + 1, ctx)
+    elif isinstance(x, (list, set)):
         for v in x:
-            walk_ids(v, out, depth + 1)
+            walk_ids(v, out, depth + 1, ctx)
+    elif isinstance(x, types.SimpleNamespace):
+        walk_ids(vars(x), out, depth + 1, ctx)
+    elif is_atom(x):
+        if ctx is not None:
+            ctx.count("sharing.atom-reference-walked")
+        walk_ids(x.attrib, out, depth + 1, ctx)
 
 
-def mutable_ids(obj):
+def mutable_ids(obj, ctx=None):
     ids = set()
-    keep = []
     for a in obj.atoms:
         ids.add(id(a))
-        walk_ids(a.attrib, ids)
-    for b in getattr(obj, "bonds", ()) or ():
+    try:
+        bonds = list(getattr(obj, "bonds", ()) or ())
+    except AttributeError:
+        bonds = []
+    for b in bonds:
         ids.add(id(b))
+    for a in obj.atoms:
+        walk_ids(a.attrib, ids, 0, ctx)
+    for b in bonds:
         walk_ids(b.attrib, ids)
     walk_ids(obj.attrib, ids)
     return ids
@@ -288,115 +657,265 @@ def arrays_of(obj):
 
 # ------------------------------------------------------------------------------------------------
 
-def make_copy(route, target, src, rng, extra):
-    """-> (copy, expected snapshot or None (= snapshot(src) restricted), note)"""
-    import copy as _copy
-    import pickle
-    import molli as ml
+def lib_classes():
     from molli.chem import Promolecule, Connectivity, CartesianGeometry, Structure, Molecule, ConformerEnsemble
 
-    classes = {"Promolecule": Promolecule, "Connectivity": Connectivity, "CartesianGeometry": CartesianGeometry,
-               "Structure": Structure, "Molecule": Molecule, "ConformerEnsemble": ConformerEnsemble}
-    if route == "ctor":
-        return classes[target](src)
-    if route == "ctor-subclass":
+    return {"Promolecule": Promolecule, "Connectivity": Connectivity, "CartesianGeometry": CartesianGeometry,
+            "Structure": Structure, "Molecule": Molecule, "ConformerEnsemble": ConformerEnsemble}
+
+
+def user_subclass(cls):
+    return type("User" + cls.__name__, (cls,), {})
+
+
+def prepare(route, target, src, keep, rng, ctx):
+    """-> dict(build=callable making the copy, donors=[(label, obj)] further objects whose state the call reads,
+               override={field: expected value}, only=set of judged fields or None)"""
+    import copy as _copy
+    import pickle
+    import numpy as np
+    from molli.chem import Molecule, ConformerEnsemble
+
+    classes = lib_classes()
+    kind = base_name(src)
+    plan = {"donors": [], "override": {}, "only": None}
+    if route == "ctor" and target == "ConformerEnsemble" and kind != "ConformerEnsemble":
+        # molecule / structure / conformer / connectivity -> ensemble with that connectivity
+        ctx.count("route.ctor-ensemble-from-molecule")
+        nc = rng.choice([None, None, 1, 3])
+        if nc is None:
+            ctx.count("ctor-ensemble.default-n-conformers")
+            plan["build"] = lambda: ConformerEnsemble(src)
+        else:
+            plan["build"] = lambda: ConformerEnsemble(src, n_conformers=nc)
+        plan["only"] = {"name", "charge", "mult", "attrib", "atoms", "bonds"}
+    elif route == "ctor":
+        plan["build"] = lambda: classes[target](src)
+    elif route == "ctor-subclass":
         # a user-defined subclass of the target class is a copy route like any other
-        sub = type("User" + target, (classes[target],), {})
-        return sub(src)
-    if route == "atoms-copy":
-        return classes[target if target != "Conformer" else "Molecule"](list(src.atoms), copy_atoms=True)
-    if route == "pickle":
-        return pickle.loads(pickle.dumps(src))
-    if route == "deepcopy":
-        return _copy.deepcopy(src)
-    raise ValueError(route)
+        sub = user_subclass(classes[target])
+        if target == "ConformerEnsemble":
+            ctx.count("route.ctor-subclass-ensemble")
+        if target in ("Promolecule", "Connectivity", "CartesianGeometry"):
+            ctx.count("route.ctor-subclass-base-classes")
+        plan["build"] = lambda: sub(src)
+    elif route == "atoms-copy":
+        plan["build"] = lambda: classes[target](list(src.atoms), copy_atoms=True)
+        plan["only"] = {"atoms"}
+    elif route == "pickle":
+        plan["build"] = lambda: pickle.loads(pickle.dumps(src))
+    elif route == "deepcopy":
+        plan["build"] = lambda: _copy.deepcopy(src)
+    elif route == "ctor-list":
+        # ConformerEnsemble([molecule, molecule, ...]) / ConformerEnsemble([conformer, conformer, ...])
+        n = rng.choice([1, 2, 3])
+        if kind == "Conformer":
+            mols = [src] + [keep[rng.randrange(keep.n_conformers)] for _ in range(n - 1)]
+        else:
+            mols = [src]
+            for k in range(n - 1):
+                d = Molecule(src)
+                d.coords = np.array(src.coords) + (k + 1.0)
+                d.atomic_charges = np.array(src.atomic_charges) * 0.5 - (k + 1)
+                mols.append(d)
+                plan["donors"].append((f"list-member-{k + 1}", d))
+        rng.shuffle(mols)
+        plan["build"] = lambda: ConformerEnsemble(mols)
+        plan["list"] = mols
+        plan["only"] = {"name", "charge", "mult", "attrib", "atoms", "bonds", "coords", "atomic_charges"}
+    elif route == "ctor-kw":
+        cls = classes[target]
+        kw = {}
+        # a second object of the same kind, alive, whose arrays may be named in the call
+        if kind == "Conformer":
+            donor = keep[rng.randrange(keep.n_conformers)]
+        else:
+            donor = cls(src)
+            if hasattr(donor, "coords"):
+                donor.coords = np.array(src.coords) + 1.0
+            if hasattr(donor, "atomic_charges"):
+                donor.atomic_charges = np.array(src.atomic_charges) - 2.0
+            if kind == "ConformerEnsemble":
+                donor.weights = np.array(src.weights) + 0.25
+            plan["donors"].append(("array-owner", donor))
+        owner = donor if rng.random() < 0.6 else src
+        fields = [f for f in ("coords", "atomic_charges", "weights") if f == "coords" or
+                  (f == "atomic_charges" and kind in ("Molecule", "Conformer", "ConformerEnsemble")) or
+                  (f == "weights" and kind == "ConformerEnsemble")]
+        chosen = [f for f in fields if rng.random() < 0.7] or [fields[0]]
+        for f in chosen:
+            kw[f] = getattr(owner, f)                 # the live array of a source, not a copy of it
+            plan["override"][f] = np.array(kw[f], copy=True)
+        ctx.count("ctor-kw.array-of-a-source")
+        if rng.random() < 0.5:
+            kw["name"] = "named-in-the-call"
+            plan["override"]["name"] = "named-in-the-call"
+        if rng.random() < 0.3:
+            kw["charge"] = 7
+            plan["override"]["charge"] = 7
+        if rng.random() < 0.3:
+            kw["mult"] = 5
+            plan["override"]["mult"] = 5
+        plan["build"] = lambda: cls(src, **kw)
+    else:
+        raise ValueError(route)
+    return plan
 
 
-def restrict(sa, sb):
-    """fields both snapshots have (cls excluded)"""
+def restrict(sa, sb, only=None):
+    """fields both snapshots have (cls excluded); "types" restricted the same way"""
     keys = (set(sa) & set(sb)) - {"cls"}
-    return {k: sa[k] for k in keys}, {k: sb[k] for k in keys}
+    if only is not None:
+        keys &= set(only) | {"types"}
+    a, b = {k: sa[k] for k in keys}, {k: sb[k] for k in keys}
+    if "types" in keys:
+        tk = set(sa["types"]) & set(sb["types"]) & keys
+        a["types"] = {k: sa["types"][k] for k in tk}
+        b["types"] = {k: sb["types"][k] for k in tk}
+    return a, b
+
+
+def merge_keeps_class(mapping):
+    """does `mapping | {}` give a mapping of the same class (dict, defaultdict, OrderedDict: yes; Counter: no)"""
+    try:
+        return type(type(mapping)() | {}) is type(mapping)
+    except Exception:  # noqa
+        return False
+
+
+def faithful(ctx, case, tag, exp, got, src_attrib=None, **detail):
+    """report the first field in which the copy differs from what the source(s) say"""
+    from vmon.snap import diff
+
+    ctx.count("faithful.checked")
+    ctx.count("types.compared")
+    d = diff(exp, got, limit=24)
+    if d and src_attrib is not None and not merge_keeps_class(src_attrib):
+        cls_paths = {".attrib.__dict_subclass__", ".types.attrib.__class__"}
+        if any(p in cls_paths for p, _, _ in d):
+            viol(ctx, f"{tag}:{_MAPPING_CLASS}", case=case, source_class=type(src_attrib).__name__)
+            d = [x for x in d if x[0] not in cls_paths]
+    if d:
+        viol(ctx, f"{tag}:not-faithful:{field_of(d[0][0])}", case=case, diff=d[:4], **detail)
 
 
 def run_chunk(spec, ctx):
-    import numpy as np
-    import molli as ml
-    from molli.chem import Atom, AtomType, Bond, Structure, Molecule
-    from vmon import gen
-    from vmon.snap import snap, diff, snap_hash, parent_report
-
     for j in range(spec["n"]):
         for kind in KINDS:
             for route, target in routes_for(kind):
                 case = (spec["chunk"], j, kind, route, target)
                 if not ctx.want(case):
                     continue
-                rng = ctx.rng(spec["chunk"], j, kind)     # same source for all routes of a kind
-                src, keep = make_source(rng, kind)
-                lend(src, rng, ctx)
-                s0 = snap(src)
-                ctx.count(f"route.{route.split('-')[0] if route.startswith('evolve') else route}")
-                if route in ("concatenate", "or", "join"):
-                    pass
-                ctx.case(case, dkey=(kind, route, target, snap_hash(s0)), nontrivial=True,
-                         sample={"source": kind, "route": route, "target": target, "n_atoms": src.n_atoms})
-                tag = f"{kind}->{route}:{target}"
-                try:
-                    if route in ("concatenate", "or", "concatenate-self"):
-                        check_concatenate(ctx, case, tag, src, s0, kind, route, rng)
-                        continue
-                    if route == "join":
-                        check_join(ctx, case, tag, kind, rng)
-                        continue
-                    if route.startswith("evolve"):
-                        check_evolve(ctx, case, tag, src, route)
-                        continue
-                    cp = make_copy(route, target, src, rng, None)
-                except Exception as e:  # noqa
-                    ctx.violation(f"{tag}:copy-raises:{type(e).__name__}", case=case, err=repr(e)[:200])
-                    continue
-                # ---- faithful
-                ctx.count("faithful.checked")
-                sc = snap(cp)
-                a, b = restrict(s0, sc)
-                if type(cp) is type(src):
-                    a, b = {k: v for k, v in s0.items() if k != "cls"}, {k: v for k, v in sc.items() if k != "cls"}
-                if route == "atoms-copy":
-                    a, b = {"atoms": s0["atoms"]}, {"atoms": sc["atoms"]}
-                d = diff(a, b)
-                if d:
-                    ctx.violation(f"{tag}:not-faithful:{field_of(d[0][0])}", case=case, diff=d[:4])
-                if type(cp).__name__ == "Conformer":
-                    # a conformer is a view: its atoms belong to the (copied) ensemble behind it
-                    par = [("atom.parent", i, None) for i, a in enumerate(cp.atoms)
-                           if a.parent is None or a.parent is getattr(src, "_parent", None) or a.idx != i
-                           or a.parent.atoms[i] is not a]
-                else:
-                    par = parent_report(cp)
-                if par:
-                    ctx.violation(f"{tag}:copy-parent-or-index-wrong:{par[0][0]}", case=case, bad=par[:3])
-                if snap_differs(s0, snap(src)):
-                    ctx.violation(f"{tag}:copying-altered-the-source", case=case)
-                # ---- no shared state
-                ctx.count("sharing.walked")
-                shared = mutable_ids(src) & mutable_ids(cp)
-                if shared:
-                    ctx.violation(f"{tag}:shares-mutable-object:{shared_kind(src, shared)}", case=case, n=len(shared))
-                for (fa, xa) in arrays_of(src):
-                    for (fb, xb) in arrays_of(cp):
-                        if np.shares_memory(xa, xb):
-                            ctx.violation(f"{tag}:shares-array-memory:{fa}", case=case)
-                # ---- independent: mutate the copy, watch the source; then the reverse on a second copy
-                watch(ctx, case, tag, mutated=cp, watched=src, watched_snap=s0, rng=rng, direction="copy-mutated")
-                rng2 = ctx.rng(spec["chunk"], j, kind)
-                src2, keep2 = make_source(rng2, kind)
-                lend(src2, rng2, ctx)
-                try:
-                    cp2 = make_copy(route, target, src2, rng, None)
-                except Exception:  # noqa
-                    continue
-                watch(ctx, case, tag, mutated=src2 if keep2 is None or rng.random() < 0.5 else keep2, watched=cp2,
-                      watched_snap=snap(cp2), rng=rng, direction="source-mutated")
+                run_case(ctx, spec, j, kind, route, target, case)
+
+
+def run_case(ctx, spec, j, kind, route, target, case):
+    import numpy as np
+    from vmon.snap import snap_hash
+
+    rng = ctx.rng(spec["chunk"], j, kind)     # same source for all routes of a kind
+    src, keep = make_source(rng, kind, ctx)
+    lend(src, rng, ctx)
+    s0 = xsnap(src)
+    ctx.count(f"route.{route.split('-')[0] if route.startswith('evolve') else route}")
+    ctx.case(case, dkey=(kind, route, target, snap_hash(s0)), nontrivial=True,
+             sample={"source": kind, "route": route, "target": target, "n_atoms": src.n_atoms})
+    tag = f"{kind}->{route}:{target}"
+    owners = [("source", src)] + ([("source-owner", keep)] if keep is not None else [])
+    try:
+        if route in ("concatenate", "or", "concatenate-self", "concatenate-one", "concatenate-empty"):
+            check_concatenate(ctx, case, tag, src, keep, s0, kind, route, rng)
+            return
+        if route in ("join", "join-mixed", "join-self"):
+            check_join(ctx, case, tag, kind, route, rng)
+            return
+        if route.startswith("evolve"):
+            check_evolve(ctx, case, tag, src, route)
+            return
+        plan = prepare(route, target, src, keep, ctx.rng(case, "prep"), ctx)
+        before = Watched(owners + plan["donors"], ctx)
+        cp = plan["build"]()
+    except Exception as e:  # noqa
+        viol(ctx, f"{tag}:copy-raises:{type(e).__name__}", case=case, err=repr(e)[:200])
+        return
+    if any(cp is o for _, o in owners + plan["donors"]):
+        viol(ctx, f"{tag}:returns-a-source-object", case=case)
+        return
+    # ---- the call leaves its sources alone (fields, classes, parent links, indices)
+    ch = before.changed()
+    if ch:
+        viol(ctx, f"{tag}:copying-altered-the-source:{ch[1]}", case=case, which=ch[0], diff=ch[2])
+    # ---- faithful
+    sc = xsnap(cp)
+    exp = dict(s0)
+    if plan["override"]:
+        exp["types"] = dict(exp["types"])
+        for f, v in plan["override"].items():
+            exp[f] = v
+    if "list" in plan:
+        first = xsnap(plan["list"][0])
+        exp = {**first, "coords": np.array([m.coords for m in plan["list"]]),
+               "atomic_charges": np.array([m.atomic_charges for m in plan["list"]])}
+    a, b = restrict(exp, sc, plan["only"])
+    if type(cp) is type(src) and not plan["override"]:
+        a, b = {k: v for k, v in exp.items() if k != "cls"}, {k: v for k, v in sc.items() if k != "cls"}
+    if route == "atoms-copy":
+        a, b = {"atoms": s0["atoms"]}, {"atoms": sc["atoms"]}
+    faithful(ctx, case, tag, a, b, src_attrib=src.attrib if route.startswith("ctor") else None)
+    if base_name(cp) == "Conformer":
+        # a conformer is a view: its atoms belong to the (copied) ensemble behind it
+        par = [("atom.parent", i, None) for i, a in enumerate(cp.atoms)
+               if a.parent is None or a.parent is keep or a.idx != i
+               or a.parent.atoms[i] is not a]
+    else:
+        from vmon.snap import parent_report
+        par = parent_report(cp)
+    if par:
+        viol(ctx, f"{tag}:copy-parent-or-index-wrong:{par[0][0]}", case=case, bad=par[:3])
+    # ---- no shared state
+    ctx.count("sharing.walked")
+    ids_cp = mutable_ids(cp)
+    for label, o in owners + plan["donors"]:
+        shared = mutable_ids(o, ctx) & ids_cp
+        if shared:
+            viol(ctx, f"{tag}:shares-mutable-object:{shared_kind(o, shared)}", case=case, n=len(shared), which=label)
+            break
+    for label, o in owners + plan["donors"]:
+        for (fa, xa) in arrays_of(o):
+            for (fb, xb) in arrays_of(cp):
+                if np.shares_memory(xa, xb):
+                    viol(ctx, f"{tag}:shares-array-memory:{fa}", case=case, which=label)
+    # ---- independent: mutate the copy, watch the source(s); then drop the copy; then the reverse on a second copy
+    watch(ctx, case, tag, mutated=cp, watched=before, rng=rng, direction="copy-mutated")
+    del cp
+    drop_check(ctx, case, tag, before)
+    rng2 = ctx.rng(spec["chunk"], j, kind)
+    src2, keep2 = make_source(rng2, kind)
+    lend(src2, rng2, ctx)
+    try:
+        plan2 = prepare(route, target, src2, keep2, ctx.rng(case, "prep"), _NoCount())
+        cp2 = plan2["build"]()
+    except Exception:  # noqa
+        return
+    candidates = [src2] + ([keep2] if keep2 is not None else []) + [o for _, o in plan2["donors"]]
+    watch(ctx, case, tag, mutated=candidates[rng.randrange(len(candidates))] if rng.random() < 0.6 else src2,
+          watched=Watched([("copy", cp2)], ctx), rng=rng, direction="source-mutated")
+
+
+class _NoCount:
+    def count(self, *a, **k):
+        pass
+
+
+def drop_check(ctx, case, tag, before):
+    """the copy is gone: atoms / bonds of the sources still name the parents they named before the call"""
+    import gc
+
+    gc.collect(0)
+    ctx.count("source.links-after-drop")
+    ch = before.links_changed()
+    if ch:
+        viol(ctx, f"{tag}:dropping-the-copy-altered-the-source:{ch[1]}", case=case, which=ch[0])
 
 
 _LENT = []
@@ -409,7 +928,7 @@ def lend(src, rng, ctx):
     from molli.chem import Promolecule
 
     r = rng.random()
-    if type(src).__name__ in ("Conformer",) or src.n_atoms == 0 or r < 0.6:
+    if base_name(src) in ("Conformer", "Substructure") or src.n_atoms == 0 or r < 0.6:
         return
     helper = Promolecule(list(src.atoms))
     ctx.count("source.atoms-lent-before-copy")
@@ -418,21 +937,13 @@ def lend(src, rng, ctx):
         del _LENT[:-8]
     else:
         del helper
-        gc.collect()
+        gc.collect(0)
 
 
 def field_of(path):
-    import re
-
     from vmon.snap import mech_field
 
     return mech_field(path)
-
-
-def snap_differs(a, b):
-    from vmon.snap import diff
-
-    return bool(diff(a, b))
 
 
 def shared_kind(src, shared):
@@ -441,7 +952,11 @@ def shared_kind(src, shared):
             return "atom-object"
         if id(a.attrib) in shared:
             return "atom.attrib-dict"
-    for b in getattr(src, "bonds", ()) or ():
+    try:
+        bonds = list(getattr(src, "bonds", ()) or ())
+    except AttributeError:
+        bonds = []
+    for b in bonds:
         if id(b) in shared:
             return "bond-object"
         if id(b.attrib) in shared:
@@ -451,10 +966,8 @@ def shared_kind(src, shared):
     return "nested-attrib-value"
 
 
-def watch(ctx, case, tag, mutated, watched, watched_snap, rng, direction):
-    from vmon.snap import snap, diff
-
-    for name, fn in mutations(mutated, rng):
+def watch(ctx, case, tag, mutated, watched, rng, direction):
+    for name, fn in mutations(mutated, rng, ctx):
         try:
             fn()
         except Exception as e:  # noqa  (a mutation that is not defined for this object is skipped)
@@ -463,9 +976,9 @@ def watch(ctx, case, tag, mutated, watched, watched_snap, rng, direction):
         ctx.count(f"independent.{direction}")
         if "nested" in name:
             ctx.count("mutation.nested-attrib")
-        d = diff(watched_snap, snap(watched))
-        if d:
-            ctx.violation(f"{tag}:{direction}:{name}:changes-the-other-side:{field_of(d[0][0])}", case=case, diff=d[:3])
+        ch = watched.changed()
+        if ch:
+            viol(ctx, f"{tag}:{direction}:{name}:changes-the-other-side:{ch[1]}", case=case, which=ch[0], diff=ch[2])
             return
 
 
@@ -474,100 +987,165 @@ def check_evolve(ctx, case, tag, src, route):
 
     if route == "evolve-atom":
         a = src.atoms[0]
+        owner_links = links(src)
         c = a.evolve()
-        sa, sc = atom_snap(a), atom_snap(c)
+
+        def sn(x):
+            return {**atom_snap(x), "types": atom_types(x)}
     else:
         bonds = list(src.bonds)
         if not bonds:
             return
         a = bonds[0]
+        owner_links = links(src)
         c = a.evolve()
         idx = {id(x): i for i, x in enumerate(src.atoms)}
-        sa, sc = bond_snap(a, idx), bond_snap(c, idx)
-    ctx.count("faithful.checked")
-    d = diff(sa, sc)
-    if d:
-        ctx.violation(f"{tag}:not-faithful:{field_of(d[0][0])}", case=case, diff=d[:3])
+
+        def sn(x):
+            return {**bond_snap(x, idx), "types": bond_types(x)}
+    sa, sc = sn(a), sn(c)
+    if c is a:
+        viol(ctx, f"{tag}:returns-a-source-object", case=case)
+        return
+    faithful(ctx, case, tag, sa, sc)
+    if links_diff(owner_links, links(src)):
+        viol(ctx, f"{tag}:copying-altered-the-source:{links_diff(owner_links, links(src))}", case=case)
     if c.attrib is a.attrib:
-        ctx.violation(f"{tag}:shares-mutable-object:attrib-dict", case=case)
+        viol(ctx, f"{tag}:shares-mutable-object:attrib-dict", case=case)
     else:
         ids_a, ids_c = set(), set()
         walk_ids(a.attrib, ids_a)
         walk_ids(c.attrib, ids_c)
+        ids_a |= {id(x) for x in src.atoms}
         if ids_a & ids_c:
-            ctx.violation(f"{tag}:shares-mutable-object:nested-attrib-value", case=case)
+            viol(ctx, f"{tag}:shares-mutable-object:nested-attrib-value", case=case)
     ctx.count("sharing.walked")
     c.attrib["evolved-only"] = 1
     nested_edit(c.attrib)
+    deep_edit(c.attrib, ctx)
     ctx.count("independent.copy-mutated")
     ctx.count("mutation.nested-attrib")
-    now = atom_snap(a) if route == "evolve-atom" else bond_snap(a, {id(x): i for i, x in enumerate(src.atoms)})
-    d = diff(sa, now)
+    d = diff(sa, sn(a))
     if d:
-        ctx.violation(f"{tag}:copy-mutated:attrib:changes-the-other-side:{field_of(d[0][0])}", case=case, diff=d[:3])
+        viol(ctx, f"{tag}:copy-mutated:attrib:changes-the-other-side:{field_of(d[0][0])}", case=case, diff=d[:3])
+    # the reverse on a second copy
+    c2 = a.evolve()
+    s2 = sn(c2)
+    a.attrib["source-only"] = 1
+    nested_edit(a.attrib)
+    deep_edit(a.attrib, ctx)
     ctx.count("independent.source-mutated")
+    d = diff(s2, sn(c2))
+    if d:
+        viol(ctx, f"{tag}:source-mutated:attrib:changes-the-other-side:{field_of(d[0][0])}", case=case, diff=d[:3])
 
 
-def check_concatenate(ctx, case, tag, src, s0, kind, route, rng):
+def check_concatenate(ctx, case, tag, src, keep, s0, kind, route, rng):
     import numpy as np
     from molli.chem import Structure, Molecule
-    from vmon.snap import snap, diff, parent_report
+    from vmon.snap import diff, parent_report
 
     other_rng = ctx.rng(case, "other")
-    okind = "Molecule" if kind in ("Molecule", "Conformer") else "Structure"
-    other, keep = make_source(other_rng, okind)
-    # one call may take any number of fragments
-    n_more = other_rng.choice([0, 0, 0, 1, 1, 2])
-    more = [make_source(other_rng, okind)[0] for _ in range(n_more)]
-    if route == "concatenate-self":
-        other = src                      # the same object twice (a dimer: m | m), or three times
-        more = [src] * (n_more % 2)
-        route = "or" if other_rng.random() < 0.5 else "concatenate"
-    frags = [src, other] + more
+    mol_like = kind in ("Molecule", "Conformer")
+    okind = "Molecule" if mol_like else "Structure"
+    call = "or" if route == "or" else "concatenate"
+    cls = Molecule if mol_like else Structure
+    if route == "concatenate-one":
+        frags = [src]
+    elif route == "concatenate-empty":
+        # zero-atom structures among the fragments, on either side
+        def empty():
+            return (Molecule if other_rng.random() < 0.5 else Structure)()
+        frags = [src] + ([make_source(other_rng, okind)[0]] if other_rng.random() < 0.4 else [])
+        for _ in range(other_rng.choice([1, 1, 2])):
+            frags.insert(other_rng.randrange(len(frags) + 1), empty())
+        if frags[0] is not src:
+            ctx.count("concatenate.empty-on-the-left")
+        call = "or" if other_rng.random() < 0.5 else "concatenate"
+    else:
+        # fragments of the class the call is made on, or (plain concatenate) of the sibling class
+        ok2 = okind if route != "concatenate" or other_rng.random() < 0.6 else ("Structure" if mol_like else "Molecule")
+        other = make_source(other_rng, ok2)[0]
+        # one call may take any number of fragments
+        n_more = other_rng.choice([0, 0, 0, 1, 1, 2])
+        more = [make_source(other_rng, okind)[0] for _ in range(n_more)]
+        if route == "concatenate-self":
+            other = src                      # the same object twice (a dimer: m | m), or three times
+            more = [src] * (n_more % 2)
+            call = "or" if other_rng.random() < 0.5 else "concatenate"
+        frags = [src, other] + more
+    if call == "concatenate" and route != "concatenate-self" and other_rng.random() < 0.35:
+        # the class the call is made on need not be the class of any fragment
+        cls = other_rng.choice([Structure if mol_like else Molecule, user_subclass(cls)])
+    if call == "concatenate" and any(type(x) is not cls for x in frags):
+        ctx.count("concatenate.class-differs-from-fragment")
     if len(frags) > 2:
         ctx.count("concatenate.three-or-more-fragments")
-    snaps = [s0] + [snap(x) for x in frags[1:]]
-    so = snaps[1]
-    if route == "or":
-        res = src | other
-        for x in more:
-            res = res | x
-    elif kind in ("Molecule", "Conformer"):
-        res = Molecule.concatenate(*frags)
-    else:
-        res = Structure.concatenate(*frags)
-    sr = snap(res)
-    ctx.count("faithful.checked")
+    distinct = []
+    for x in frags:
+        if not any(x is y for y in distinct):
+            distinct.append(x)
+    snaps = [s0 if x is src else xsnap(x) for x in frags]
+    before = Watched([(f"fragment-{i}", x) for i, x in enumerate(distinct)]
+                     + ([("source-owner", keep)] if keep is not None else []), ctx)
+
+    def build(fr):
+        if call == "or":
+            res = fr[0] | fr[1]
+            for x in fr[2:]:
+                res = res | x
+            return res
+        return cls.concatenate(*fr)
+
+    res = build(frags)
+    ctx.count("concatenate.result-identity-checked")
+    if any(res is x for x in frags):
+        viol(ctx, f"{tag}:returns-a-source-object", case=case, fragments=len(frags))
+        return
+    want_cls = Structure if call == "or" else cls
+    if type(res) is not want_cls:
+        viol(ctx, f"{tag}:result-class-wrong", case=case, got=type(res).__name__, want=want_cls.__name__)
+    ch = before.changed()
+    if ch:
+        viol(ctx, f"{tag}:copying-altered-the-source:{ch[1]}", case=case, which=ch[0], diff=ch[2])
+    sr = xsnap(res)
     exp_atoms, exp_bonds, off = [], [], 0
     for sx in snaps:
         exp_atoms += sx["atoms"]
         exp_bonds += [{**b, "a1": b["a1"] + off, "a2": b["a2"] + off} for b in sx["bonds"]]
         off += len(sx["atoms"])
-    d = diff({"atoms": exp_atoms, "bonds": exp_bonds, "coords": np.vstack([sx["coords"] for sx in snaps])},
-             {"atoms": sr["atoms"], "bonds": sr["bonds"], "coords": sr["coords"]})
-    if d:
-        ctx.violation(f"{tag}:not-faithful:{field_of(d[0][0])}", case=case, diff=d[:3], fragments=len(frags))
-    if "atomic_charges" in sr and all("atomic_charges" in sx for sx in snaps) and route != "or":
+    faithful(ctx, case, tag, {"atoms": exp_atoms, "bonds": exp_bonds, "coords": np.vstack([sx["coords"] for sx in snaps])},
+             {"atoms": sr["atoms"], "bonds": sr["bonds"], "coords": sr["coords"]}, fragments=len(frags))
+    if "atomic_charges" in sr and all("atomic_charges" in sx for sx in snaps) and call != "or":
         q = np.concatenate([sx["atomic_charges"] for sx in snaps])
         if sr["atomic_charges"].shape != q.shape or not np.array_equal(sr["atomic_charges"], q):
-            ctx.violation(f"{tag}:not-faithful:atomic_charges", case=case, got=sr["atomic_charges"][:4], want=q[:4])
+            viol(ctx, f"{tag}:not-faithful:atomic_charges", case=case, got=sr["atomic_charges"][:4], want=q[:4])
     par = parent_report(res)
     if par:
-        ctx.violation(f"{tag}:copy-parent-or-index-wrong:{par[0][0]}", case=case, bad=par[:3])
-    shared = set().union(*(mutable_ids(x) for x in frags)) & mutable_ids(res)
+        viol(ctx, f"{tag}:copy-parent-or-index-wrong:{par[0][0]}", case=case, bad=par[:3])
+    ids_res = mutable_ids(res)
+    shared = set().union(*(mutable_ids(x, ctx) for x in distinct)) & ids_res
     ctx.count("sharing.walked")
     if shared:
-        ctx.violation(f"{tag}:shares-mutable-object:{shared_kind(src, shared)}", case=case)
-    watch(ctx, case, tag, mutated=res, watched=src, watched_snap=s0, rng=rng, direction="copy-mutated")
-    for x, sx in zip(frags[1:], snaps[1:]):
-        if x is not src and snap_differs(sx, snap(x)):
-            ctx.violation(f"{tag}:copy-mutated:changes-the-second-source", case=case)
+        viol(ctx, f"{tag}:shares-mutable-object:{shared_kind(src, shared)}", case=case)
+    for x in distinct:
+        for (fa, xa) in arrays_of(x):
+            for (fb, xb) in arrays_of(res):
+                if np.shares_memory(xa, xb):
+                    viol(ctx, f"{tag}:shares-array-memory:{fa}", case=case)
+    watch(ctx, case, tag, mutated=res, watched=before, rng=rng, direction="copy-mutated")
+    del res
+    drop_check(ctx, case, tag, before)
     # reverse
-    res2 = Molecule.concatenate(src, other) if (kind in ("Molecule", "Conformer") and route != "or") else Structure.concatenate(src, other)
-    watch(ctx, case, tag, mutated=other, watched=res2, watched_snap=snap(res2), rng=rng, direction="source-mutated")
+    res2 = build(frags)
+    if any(res2 is x for x in frags):
+        return
+    pool = [x for x in distinct if x.n_atoms] or [src]
+    watch(ctx, case, tag, mutated=pool[rng.randrange(len(pool))] if route != "concatenate" or len(pool) < 2 else pool[1],
+          watched=Watched([("result", res2)], ctx), rng=rng, direction="source-mutated")
 
 
-def fragment_with_ap(rng, cls, name):
+def fragment_with_ap(rng, cls, name, ctx=None):
     """3-D tree fragment with one attachment point (exactly one bond), rich atom/bond fields, non-zero charges"""
     import numpy as np
     from molli.chem import Atom, AtomType, Element
@@ -581,7 +1159,7 @@ def fragment_with_ap(rng, cls, name):
     m.add_atom(ap, m.coords[anchor] + v * 1.1)
     m.connect(anchor, ap)
     for i, a in enumerate(m.atoms):
-        a.attrib = {"i": i, "nested": {"l": [i]}}
+        a.attrib = {"i": i, "nested": {"l": [i]}, "tags": {i}}
         a.formal_charge = i % 3 - 1
         a.isotope = 10 + i
     for i, b in enumerate(m.bonds):
@@ -589,27 +1167,105 @@ def fragment_with_ap(rng, cls, name):
         b.label = f"b{i}"
     if hasattr(m, "atomic_charges"):
         m.atomic_charges = np.array([0.125 * (i + 1) for i in range(m.n_atoms)])
-    m.attrib = {"frag": name, "nested": {"x": [1]}}
+    if rng.random() < 0.5:
+        m.attrib = {"frag": name, "nested": {"x": [1]}}
+    elif ctx is not None:
+        ctx.count("source.default-attrib")       # the attribute mapping the constructor made is never replaced
     return m, ap
 
 
-def check_join(ctx, case, tag, kind, rng):
+def check_join(ctx, case, tag, kind, route, rng):
     import numpy as np
-    from molli.chem import Structure, Molecule
-    from vmon.snap import snap, diff, parent_report
+    from molli.chem import Structure, Molecule, ConformerEnsemble
+    from vmon.snap import diff, parent_report
 
-    cls = Molecule if kind == "Molecule" else Structure
-    A, apA = fragment_with_ap(rng, cls, "A")
-    B, apB = fragment_with_ap(rng, cls, "B")
-    sA, sB = snap(A), snap(B)
+    base_cls = Structure if kind == "Structure" else Molecule
+    keep = []
+
+    def conformer_of(m, ap, k=None):
+        """an ensemble with the fragment's connectivity; -> (ensemble, attachment point of the ensemble)"""
+        nc = rng.choice([2, 3])
+        ens = ConformerEnsemble(m, n_conformers=nc)
+        ens.coords = np.array([m.coords + 0.5 * i for i in range(nc)])
+        ens.atomic_charges = np.array([m.atomic_charges * (i + 1) for i in range(nc)])
+        keep.append(ens)
+        return ens, ens.atoms[m.atoms.index(ap)]
+
+    cls = base_cls
+    if route == "join":
+        A, apA = fragment_with_ap(rng, cls, "A", ctx)
+        B, apB = fragment_with_ap(rng, cls, "B", ctx)
+    elif route == "join-mixed":
+        # the class join is called on differs from the class of a fragment
+        A, apA = fragment_with_ap(rng, Molecule, "A", ctx)
+        B, apB = fragment_with_ap(rng, Molecule, "B", ctx)
+        variant = rng.choice(["conformer-first", "conformer-second", "structure-first", "called-on-structure",
+                              "called-on-user-subclass", "user-subclass-first"]) if kind != "Conformer" else \
+            rng.choice(["conformer-first", "conformer-second", "conformer-both"])
+        if variant in ("conformer-first", "conformer-both"):
+            ens, apA = conformer_of(A, apA)
+            A = ens[rng.randrange(ens.n_conformers)]
+        if variant in ("conformer-second", "conformer-both"):
+            ens, apB = conformer_of(B, apB)
+            B = ens[rng.randrange(ens.n_conformers)]
+        if variant.startswith("conformer"):
+            cls = Molecule
+            ctx.count("join.conformer-fragment")
+        elif variant == "structure-first":
+            i = A.atoms.index(apA)
+            A = Structure(A)
+            apA = A.atoms[i]
+            cls = Molecule
+        elif variant == "called-on-structure":
+            cls = Structure
+        elif variant == "called-on-user-subclass":
+            cls = user_subclass(base_cls)
+        elif variant == "user-subclass-first":
+            i = A.atoms.index(apA)
+            A = user_subclass(Molecule)(A)
+            apA = A.atoms[i]
+            cls = base_cls
+        if type(A) is not cls:
+            ctx.count("join.class-differs-from-first-fragment")
+    else:
+        # join-self: the same structure on both sides (a symmetric dimer) / two conformers of one ensemble
+        A, apA = fragment_with_ap(rng, Molecule if kind == "Conformer" else cls, "A", ctx)
+        if kind == "Conformer":
+            ens, apA = conformer_of(A, apA)
+            i, k = rng.randrange(ens.n_conformers), rng.randrange(ens.n_conformers)
+            A, B = ens[i], ens[k]
+        else:
+            B = A
+        apB = apA
     iA, iB = A.atoms.index(apA), B.atoms.index(apB)
-    res = cls.join(A, B, apA, apB)
-    sr = snap(res)
-    ctx.count("faithful.checked")
+    distinct = [A] if B is A else [A, B]
+    before = Watched([(f"fragment-{i}", x) for i, x in enumerate(distinct)] + [("source-owner", e) for e in keep], ctx)
+    sA, sB = before.items[0][2], before.items[len(distinct) - 1][2]
+    by_index = rng.random() < 0.5
+    if by_index:
+        ctx.count("join.attachment-by-index")
+
+    def build():
+        return cls.join(A, B, iA if by_index else apA, iB if by_index else apB)
+
+    try:
+        res = build()
+    except Exception as e:  # noqa
+        viol(ctx, f"{tag}:join-raises:{type(e).__name__}", case=case, err=repr(e)[:200],
+             classes=[cls.__name__, type(A).__name__, type(B).__name__])
+        return
+    if any(res is x for x in distinct):
+        viol(ctx, f"{tag}:returns-a-source-object", case=case)
+        return
+    if type(res) is not cls:
+        viol(ctx, f"{tag}:result-class-wrong", case=case, got=type(res).__name__, want=cls.__name__)
+    ch = before.changed()
+    if ch:
+        viol(ctx, f"{tag}:joining-altered-a-source:{ch[1]}", case=case, which=ch[0], diff=ch[2])
+    sr = xsnap(res)
     exp_atoms = [a for i, a in enumerate(sA["atoms"]) if i != iA] + [a for i, a in enumerate(sB["atoms"]) if i != iB]
-    d = diff({"atoms": exp_atoms}, {"atoms": sr["atoms"]})
-    if d:
-        ctx.violation(f"{tag}:not-faithful:{field_of(d[0][0])}", case=case, diff=d[:3])
+    faithful(ctx, case, tag, {"atoms": exp_atoms}, {"atoms": sr["atoms"]})
+
     # bonds of the fragments (not touching the attachment points) keep all their fields
     def remap(s, skip, off):
         m = {}
@@ -618,31 +1274,46 @@ def check_join(ctx, case, tag, kind, rng):
             if i != skip:
                 m[i] = k + off
                 k += 1
-        return [{**b, "a1": m[b["a1"]], "a2": m[b["a2"]]} for b in s["bonds"] if skip not in (b["a1"], b["a2"])]
-    exp_b = remap(sA, iA, 0) + remap(sB, iB, len(sA["atoms"]) - 1)
+        return m, [{**b, "a1": m[b["a1"]], "a2": m[b["a2"]]} for b in s["bonds"] if skip not in (b["a1"], b["a2"])]
+
+    mA, bA = remap(sA, iA, 0)
+    mB, bB = remap(sB, iB, len(sA["atoms"]) - 1)
+    exp_b = bA + bB
     d = diff(exp_b, sr["bonds"][:len(exp_b)])
-    if d or len(sr["bonds"]) != len(exp_b) + 1:
-        ctx.violation(f"{tag}:not-faithful:bonds", case=case, diff=d[:3], n_got=len(sr["bonds"]), n_want=len(exp_b) + 1)
-    if "atomic_charges" in sr and "atomic_charges" in sA:
+    # the new bond joins the two atoms the attachment points were bonded to
+    anchor = [next(b["a2"] if b["a1"] == i else b["a1"] for b in s["bonds"] if i in (b["a1"], b["a2"]))
+              for s, i in ((sA, iA), (sB, iB))]
+    new_ok = len(sr["bonds"]) == len(exp_b) + 1 and \
+        {sr["bonds"][-1]["a1"], sr["bonds"][-1]["a2"]} == {mA[anchor[0]], mB[anchor[1]]}
+    if d or not new_ok:
+        viol(ctx, f"{tag}:not-faithful:bonds", case=case, diff=d[:3], n_got=len(sr["bonds"]), n_want=len(exp_b) + 1,
+             new_bond_ok=new_ok)
+    if "atomic_charges" in sr and "atomic_charges" in sA and "atomic_charges" in sB:
         q = np.concatenate([np.delete(sA["atomic_charges"], iA), np.delete(sB["atomic_charges"], iB)])
         if sr["atomic_charges"].shape != q.shape or not np.array_equal(sr["atomic_charges"], q):
-            ctx.violation(f"{tag}:not-faithful:atomic_charges", case=case, got=sr["atomic_charges"][:4], want=q[:4])
+            viol(ctx, f"{tag}:not-faithful:atomic_charges", case=case, got=sr["atomic_charges"][:4], want=q[:4])
     par = parent_report(res)
     if par:
-        ctx.violation(f"{tag}:copy-parent-or-index-wrong:{par[0][0]}", case=case, bad=par[:3])
-    if snap_differs(sA, snap(A)) or snap_differs(sB, snap(B)):
-        ctx.violation(f"{tag}:joining-altered-a-source", case=case)
-    shared = (mutable_ids(A) | mutable_ids(B)) & mutable_ids(res)
+        viol(ctx, f"{tag}:copy-parent-or-index-wrong:{par[0][0]}", case=case, bad=par[:3])
+    ids_res = mutable_ids(res)
     ctx.count("sharing.walked")
-    if shared:
-        ctx.violation(f"{tag}:shares-mutable-object:{shared_kind(A, shared) if mutable_ids(A) & shared else shared_kind(B, shared)}",
-                      case=case)
-    for (fa, xa) in arrays_of(A) + arrays_of(B):
-        for (fb, xb) in arrays_of(res):
-            if np.shares_memory(xa, xb):
-                ctx.violation(f"{tag}:shares-array-memory:{fa}", case=case)
-    watch(ctx, case, tag, mutated=res, watched=A, watched_snap=sA, rng=rng, direction="copy-mutated")
-    if snap_differs(sB, snap(B)):
-        ctx.violation(f"{tag}:copy-mutated:changes-the-second-source", case=case)
-    res2 = cls.join(A, B, apA, apB)
-    watch(ctx, case, tag, mutated=B, watched=res2, watched_snap=snap(res2), rng=rng, direction="source-mutated")
+    for x in distinct:
+        shared = mutable_ids(x, ctx) & ids_res
+        if shared:
+            viol(ctx, f"{tag}:shares-mutable-object:{shared_kind(x, shared)}", case=case)
+            break
+    for x in distinct:
+        for (fa, xa) in arrays_of(x):
+            for (fb, xb) in arrays_of(res):
+                if np.shares_memory(xa, xb):
+                    viol(ctx, f"{tag}:shares-array-memory:{fa}", case=case)
+    watch(ctx, case, tag, mutated=res, watched=before, rng=rng, direction="copy-mutated")
+    del res
+    drop_check(ctx, case, tag, before)
+    try:
+        res2 = build()
+    except Exception:  # noqa
+        return
+    pool = distinct + keep
+    watch(ctx, case, tag, mutated=pool[rng.randrange(len(pool))], watched=Watched([("result", res2)], ctx), rng=rng,
+          direction="source-mutated")
